@@ -335,7 +335,7 @@ def _generic_alias_parameter_order(ctx):
     from adaptix import DebugTrail, Retort  # noqa: PLC0415
     ns = {}
     exec("type Pair[K, V] = dict[V, K]\ntype Unused[T] = int\ntype Second[K, V] = list[V]\ntype Same[K, V] = dict[K, V]\n"  # noqa: S102
-         "type Nest[A, B] = list[tuple[B, A]]", ns)
+         "type Nest[A, B] = list[tuple[B, A]]\ntype Id[X] = X\ntype Snd[A, B] = B", ns)
     D = Decimal
     table = [  # (hint, reference hint, data accepted, data rejected, value to dump)
         (ns["Pair"][str, D], dict[D, str], {"1": "a"}, {"a": 1}, {D(1): "a"}),
@@ -343,6 +343,9 @@ def _generic_alias_parameter_order(ctx):
         (ns["Second"][str, D], list[D], ["1"], [[]], [D(1)]),
         (ns["Same"][str, D], dict[str, D], {"a": "1"}, {"a": []}, {"a": D(1)}),
         (ns["Nest"][str, D], list[tuple[D, str]], [["1", "a"]], [["a", 1]], [(D(1), "a")]),
+        # the value of the alias is a bare type variable (report of a round-8 agent: it came back unsubstituted, no loader)
+        (ns["Id"][D], D, "1", [], D(1)), (ns["Snd"][str, D], D, "1", [], D(1)), (list[ns["Id"][D]], list[D], ["1"], [[]], [D(1)]),
+        (ns["Id"][list[D]], list[D], ["1"], [[]], [D(1)]),
     ]
     for dt in DebugTrail:
         r = Retort(debug_trail=dt)
